@@ -1,158 +1,65 @@
 /-
-  C06 — executable copy of the message framing used by `ThreadLink::read`:
-  `deref`, `bundle_ring_length`, `rtosc_message_ring_length` (src/rtosc.c:545-652).
+  C06 — the message framing used by `ThreadLink`, taken from C01's model of src/rtosc.c
+  (`RtoscModel/Osc/Length.lean`, `RtoscModel/Osc/Bundle.lean`; both mirror rtosc.c at HEAD,
+  i.e. with the guards of the fixes C07-blob-len / C07-bundle-len / C07-empty-string-size):
 
-  The ThreadLink theorems are parameterised by an abstract framing function
-  (`Rtosc.Ring.Framing`); this file is what the *driver* plugs in, so that the
-  correspondence run compares the real `rtosc_message_ring_length` with a
-  straightforward transcription.  (C01 models the same function in
-  `RtoscModel/Osc/Length.lean` and proves `ringLength_encode`; this copy keeps the
-  C06 build independent of it.)
+  * `frameOsc v`   = `rtosc_message_ring_length(r)` on the ring view `v = r[0] ++ r[1]`
+                     (`Osc.ringLength`; the code's own `deref` yields 0 outside both segments and
+                     the guards compare with `total = |v|`).  This is the `frame` the driver
+                     runs and the function the `…_osc` theorems of Props/C06.lean are about;
+                     `Proofs/RingOsc.lean` proves `Framing frameOsc IsOscMsg` from C01's
+                     `ringLength_encode`.
+  * `rawLen blk`   = `rtosc_message_length(msg, -1)` as called by `ThreadLink::raw_write`
+                     (`Osc.messageLengthU`): the ring is `{{msg, SIZE_MAX}, {NULL, 0}}`, so *no*
+                     guard of the code can fire and every read is checked against the block
+                     `blk` at `msg` instead: `.oob` = a byte outside the block would be read,
+                     `.hang` = the loop does not terminate (finding C06-K6).
 
-  * The ring view is two segments; the code's `deref` yields 0 outside both, so on the
-    concatenation `d0 ++ d1` it is `getD pos 0` — the bounds check is the code's own.
-  * `unsigned pos` wraps modulo 2^32 explicitly.
-  * Loops run on fuel (`view length + 2`); `none` = the real loop would not stop within
-    that many rounds (only possible when `pos` wraps).
+  (An earlier version of this file carried its own transcription of rtosc.c:545-652; it had
+  gone stale against the two fixes above — white-box review B1/B2 — and is gone.)
 -/
-import RtoscModel.Basic
+import RtoscModel.Ring.Seq
+import RtoscModel.Osc.Bundle
 namespace Rtosc.Ring
 open Rtosc
 
-def u32 (n : Nat) : Nat := n % 4294967296
+/-- `rtosc_message_ring_length` on the concatenated ring view; fuel exhaustion (impossible
+    for a view shorter than 2^32 bytes, where `pos` cannot wrap) is shown as 0 -/
+def frameOsc (v : Bytes) : Nat := (Osc.ringLength ⟨v, []⟩).getD 0
 
-/-- `a - b` on `unsigned` -/
-def usub (a b : Nat) : Nat := (a + 4294967296 - b % 4294967296) % 4294967296
+/-- the framing function the driver runs -/
+abbrev frameExec : Bytes → Nat := frameOsc
 
-/-- `deref(pos, ring)` on the concatenated view -/
-def deref (v : Bytes) (pos : Nat) : UInt8 := v.getD pos 0
+def bundleMagic : Bytes := Osc.bundleMagic    -- "#bundle\0"
 
-/-- `deref` on the two segments as written in the code; equal to `deref (d0 ++ d1)`. -/
-def deref2 (d0 d1 : Bytes) (pos : Nat) : UInt8 :=
-  if pos < d0.length then d0.getD pos 0
-  else if pos - d0.length < d1.length then d1.getD (pos - d0.length) 0 else 0
+/-- `rtosc_message_length(msg, -1)` on the block at `msg` -/
+def rawLen (blk : Bytes) : Osc.Rd Nat := Osc.messageLengthU blk
 
-/-- `has_reserved` (rtosc.c:35) -/
-def hasReserved (t : UInt8) : Bool :=
-  t = 105 || t = 115 || t = 98 || t = 102 || t = 104 || t = 116 || t = 100 ||
-  t = 83 || t = 114 || t = 109 || t = 99
+/-- the encodings of well-formed OSC messages whose address does not start with '#'
+    (the inputs C01's `ringLength_encode` is about) -/
+def IsOscMsg (b : Bytes) : Prop :=
+  ∃ m : Osc.Msg, m.WF ∧ m.addr.head? ≠ some 35 ∧ b = Osc.Spec.encode m
 
-/-- first position `≥ pos` holding 0 -/
-def scanNul (v : Bytes) : Nat → Nat → Option Nat
-  | 0, _ => none
-  | f + 1, pos => if deref v pos = 0 then some pos else scanNul v f (u32 (pos + 1))
+/-- One operation of the sequential ThreadLink with the real length functions:
+    `raw_write` computes its length with `rtosc_message_length(msg,-1)` (`rawLen`), the reads
+    frame with `rtosc_message_ring_length` (`frameOsc`).  `none`: `raw_write` does not return
+    (`.hang`) or reads outside the block it was given (`.oob`). -/
+def Seq.stepOsc (s : Seq) : Op → Option (Seq × Out)
+  | .rawWrite b =>
+    match rawLen b with
+    | .ok len => some (s.rawWrite (fun _ => len) b, .unit)
+    | _ => none
+  | op => some (s.step frameOsc op)
 
-/-- `for(int i=0; i<4; ++i) if(deref(++pos, ring)) break;` -/
-def nullWord (v : Bytes) : Nat → Nat → Nat
-  | 0, pos => pos
-  | k + 1, pos =>
-    let pos := u32 (pos + 1)
-    if deref v pos ≠ 0 then pos else nullWord v k pos
-
-/-- bytes from `p` up to the first 0 (the type tags) -/
-def tagsFrom (v : Bytes) : Nat → Nat → Option Bytes
-  | 0, _ => none
-  | f + 1, p =>
-    let c := deref v p
-    if c = 0 then some [] else (tagsFrom v f (u32 (p + 1))).map (c :: ·)
-
-def rd32 (v : Bytes) (pos : Nat) : Nat :=
-  (deref v pos).toNat * 16777216 + (deref v (u32 (pos + 1))).toNat * 65536 +
-  (deref v (u32 (pos + 2))).toNat * 256 + (deref v (u32 (pos + 3))).toNat
-
-/-- the `while(toparse)` loop -/
-def lenLoop (v : Bytes) (fuel aligned : Nat) : Nat → Bytes → Nat → Option Nat
-  | 0, _, pos => some pos
-  | _ + 1, [], _ => none
-  | tp + 1, t :: ts, pos =>
-    if t = 104 ∨ t = 116 ∨ t = 100 then lenLoop v fuel aligned tp ts (u32 (pos + 8))
-    else if t = 109 ∨ t = 114 ∨ t = 99 ∨ t = 102 ∨ t = 105 then
-      lenLoop v fuel aligned tp ts (u32 (pos + 4))
-    else if t = 83 ∨ t = 115 then
-      match scanNul v fuel (u32 (pos + 1)) with            -- while(deref(++pos,ring));
+/-- a history; stops at the first operation that does not return -/
+def Seq.runOsc : Seq → List Op → Option (Seq × List Out)
+  | s, [] => some (s, [])
+  | s, op :: ops =>
+    match s.stepOsc op with
+    | none => none
+    | some (s1, o) =>
+      match Seq.runOsc s1 ops with
       | none => none
-      | some p => lenLoop v fuel aligned tp ts (u32 (p + (4 - usub p aligned % 4)))
-    else if t = 98 then
-      let i := rd32 v pos
-      let pos := u32 (u32 (pos + 4) + i)
-      let pos := if usub pos aligned % 4 ≠ 0 then u32 (pos + (4 - usub pos aligned % 4)) else pos
-      lenLoop v fuel aligned tp ts pos
-    else lenLoop v fuel aligned (tp + 1) ts pos
-
-/-- the `do … while(advance)` loop of `bundle_ring_length` -/
-def bundleLoop (v : Bytes) : Nat → Nat → Option Nat
-  | 0, _ => none
-  | f + 1, pos =>
-    let advance := rd32 v pos
-    if advance ≠ 0 then bundleLoop v f (u32 (pos + u32 (4 + advance))) else some pos
-
-def bundleMagic : Bytes := [35, 98, 117, 110, 100, 108, 101, 0]    -- "#bundle\0"
-
-/-- `rtosc_message_ring_length` on the view `v = r[0] ++ r[1]`; `none`: a loop ran out
-    of fuel (the real function would spin). -/
-def ringLength (v : Bytes) : Option Nat :=
-  let fuel := v.length + 2
-  if (List.range 8).map (deref v) = bundleMagic then
-    match bundleLoop v fuel 16 with
-    | none => none
-    | some pos => some (if pos ≤ v.length then pos else 0)
-  else
-    match scanNul v fuel 0 with                      -- while(deref(pos++,ring)); pos--;
-    | none => none
-    | some pos =>
-      let pos := nullWord v 4 pos
-      if deref v pos ≠ 44 then some 0
-      else
-        let aligned := pos
-        let arguments := u32 (pos + 1)
-        match scanNul v fuel (u32 (pos + 1)) with    -- while(deref(++pos,ring));
-        | none => none
-        | some pos =>
-          let pos := u32 (pos + (4 - usub pos aligned % 4))
-          match tagsFrom v fuel arguments with
-          | none => none
-          | some tags =>
-            match lenLoop v fuel aligned ((tags.filter hasReserved).length) tags pos with
-            | none => none
-            | some pos => some (if pos ≤ v.length then pos else 0)
-
-/-- the framing function the driver runs (fuel exhaustion shown as 0; it cannot occur for
-    views shorter than 2^32 - 8 bytes unless a blob/bundle size field wraps `pos`) -/
-def frameExec (v : Bytes) : Nat := (ringLength v).getD 0
-
-theorem ringLength_le (v : Bytes) (n : Nat) (h : ringLength v = some n) : n ≤ v.length := by
-  unfold ringLength at h
-  simp only at h
-  split at h
-  · split at h
-    · cases h
-    · cases h; split <;> omega
-  · split at h
-    · cases h
-    · split at h
-      · cases h; omega
-      · split at h
-        · cases h
-        · split at h
-          · cases h
-          · split at h
-            · cases h
-            · cases h; split <;> omega
-
-theorem frameExec_le (v : Bytes) : frameExec v ≤ v.length := by
-  unfold frameExec
-  cases h : ringLength v with
-  | none => simp
-  | some n => simpa using ringLength_le v n h
-
-theorem deref2_eq (d0 d1 : Bytes) (pos : Nat) : deref2 d0 d1 pos = deref (d0 ++ d1) pos := by
-  unfold deref2 deref
-  by_cases h : pos < d0.length
-  · simp [h, List.getD_eq_getElem?_getD, List.getElem?_append_left h]
-  · have h' : d0.length ≤ pos := Nat.le_of_not_lt h
-    simp only [h, if_false, List.getD_eq_getElem?_getD, List.getElem?_append_right h']
-    by_cases h2 : pos - d0.length < d1.length
-    · simp [h2]
-    · simp [h2]
+      | some (s2, os) => some (s2, o :: os)
 
 end Rtosc.Ring
